@@ -11,11 +11,22 @@ Driver of the C05 model.  Bit patterns are decimal integers, bytes are hex.
 * `cplx <size> <off> <buflen> <re64> <im64>` → `ok <hex buffer> <re64> <im64>`  (write into a zeroed buffer, read back)
 * `ord <n>`                         → `ok <bits64>`  (1-char bytes/str cast to a float type)
 * `ld <new|item|cast> <hex16> <junkhex>` → `ok <hex of the 10 value bytes of the copy>`
+* `castchar <size> <bytes|str> <len> <ord>` → `ok <hex bytes>` | `err TypeError`   (ffi.cast(float type, 1-char bytes/str))
+
+`store`, `read`, `ld` and `castchar` run the float branches of convert_from_object / convert_to_object /
+do_cast of the model, i.e. through the flag tests and result codes of `Generated/FloatExprs.lean`.
 -/
+
+def fltFlags : Nat := Generated.FloatExprs.CT_PRIMITIVE_FLOAT
+def ldFlags : Nat := Generated.FloatExprs.CT_PRIMITIVE_FLOAT ||| Generated.FloatExprs.CT_IS_LONGDOUBLE
+def noExt (_ : UInt64) : Bytes := []
+def pyFloatArg (x : Nat) : FArg := ⟨false, 0, [], some (UInt64.ofNat x)⟩
+def ldArg (obj : Bytes) : FArg := ⟨true, ldFlags, obj, none⟩
 
 def errStr : Err → String
   | .fatalBadSize => "err FatalBadSize"
   | .typeError => "err TypeError"
+  | .unmodelled => "err Unmodelled"
 
 def step (_ : Unit) : List String → Unit × String
   | ["narrow", x] =>
@@ -30,10 +41,11 @@ def step (_ : Unit) : List String → Unit × String
     match nat? sz, nat? x with
     | some sz, some x =>
       if x < 2 ^ 64 then
-        match writeRawFloat (UInt64.ofNat x) sz with
+        match convertFromObjectFloat fltFlags sz (pyFloatArg x) noExt [] with
         | .ok bs =>
-          match readRawFloat bs sz with
-          | .ok back => ((), s!"ok {bytesHex bs} {back.toNat}")
+          match convertToObjectFloat fltFlags sz bs [] with
+          | .ok (.pyfloat back) => ((), s!"ok {bytesHex bs} {back.toNat}")
+          | .ok (.ldcdata _) => ((), "err Unmodelled")
           | .error e => ((), errStr e)
         | .error e => ((), errStr e)
       else ((), "bad-op")
@@ -41,8 +53,9 @@ def step (_ : Unit) : List String → Unit × String
   | ["read", sz, h] =>
     match nat? sz, hexBytes? h with
     | some sz, some bs =>
-      match readRawFloat bs sz with
-      | .ok back => ((), s!"ok {back.toNat}")
+      match convertToObjectFloat fltFlags sz bs [] with
+      | .ok (.pyfloat back) => ((), s!"ok {back.toNat}")
+      | .ok (.ldcdata _) => ((), "err Unmodelled")
       | .error e => ((), errStr e)
     | _, _ => ((), "bad-op")
   | ["cplx", sz, off, len, re, im] =>
@@ -66,16 +79,37 @@ def step (_ : Unit) : List String → Unit × String
   | ["ld", path, h, j] =>
     match hexBytes? h, hexBytes? j with
     | some src, some junk =>
-      let r := match path with
-        | "new" => some (ldConvertFromObject src junk)
-        | "item" => some (ldConvertToObject src junk)
-        | "cast" => some (ldCast src junk junk.reverse)
+      let r : Option (Except Err Bytes) := match path with
+        | "new" => some (convertFromObjectFloat ldFlags 16 (ldArg src) noExt junk)
+        | "item" => some (match convertToObjectFloat ldFlags 16 src junk with
+            | .ok (.ldcdata o) => .ok o
+            | .ok (.pyfloat _) => .error .unmodelled
+            | .error e => .error e)
+        | "cast" => some (match convertToObjectFloat ldFlags 16 src junk with       -- io = convert_to_object(ob)
+            | .ok (.ldcdata io) => castToFloat ldFlags 16 true ldFlags (.other (ldArg io)) noExt junk.reverse
+            | .ok (.pyfloat _) => .error .unmodelled
+            | .error e => .error e)
         | _ => none
       match r with
-      | some (some obj) => ((), s!"ok {bytesHex (ldValue obj)}")
-      | some none => ((), "err BadSize")
+      | some (.ok obj) => ((), s!"ok {bytesHex (ldValue obj)}")
+      | some (.error .fatalBadSize) => ((), "err BadSize")
+      | some (.error e) => ((), errStr e)
       | none => ((), "bad-op")
     | _, _ => ((), "bad-op")
+  | ["castchar", sz, kind, len, n] =>
+    match nat? sz, nat? len, nat? n with
+    | some sz, some len, some n =>
+      let io : Option CastArg := match kind with
+        | "bytes" => some (.bytes len n)
+        | "str" => some (.str (len == 1) n)
+        | _ => none
+      match io with
+      | some io =>
+        match castToFloat fltFlags sz false 0 io noExt [] with
+        | .ok bs => ((), s!"ok {bytesHex bs}")
+        | .error e => ((), errStr e)
+      | none => ((), "bad-op")
+    | _, _, _ => ((), "bad-op")
   | _ => ((), "bad-op")
 
 def main : IO Unit := runDriver () step
